@@ -90,8 +90,13 @@ func C10(r *vf.Run) {
 			// a large cartridge: banks beyond $3F / $7F / $BF exist (4-8 MiB images)
 			nb = []int{64, 65, 127, 128, 129, 192, 255, 256}[g.Intn(8)]
 		}
+		if g.Intn(8) == 0 {
+			extra = []int{0x200, 0x1FF, 0x201, 0x400, 1, 0x7FFF}[g.Intn(6)] // e.g. a dump that still carries a 512-byte copier header
+		}
 		img := g.Bytes(nb*0x8000 + extra)
-		rom, err := snes.NewROM("c10", img)
+		// the name is the caller's business (a file name, usually): it says nothing about the bytes
+		name := []string{"c10", "game.sfc", "game.smc", "GAME.SWC", "x.fig", "rom.bin", "", "a.b.smc", "/tmp/dir.smc/game"}[g.Intn(9)]
+		rom, err := snes.NewROM(name, img)
 		if err != nil {
 			r.Fail("newrom", err.Error(), nil)
 			return
